@@ -197,6 +197,61 @@ def real_shape_matrices(ns, per_n):
     return captured
 
 
+def structured_matrices(max_n):
+    """Larger shapes, enumerated structurally (no sampling): identities and their row/column extensions,
+    every single duplicated or summed row, block and staircase patterns, all matrices whose rows are unit
+    vectors e_a or sums e_a + e_b of a fixed small column set embedded at every offset."""
+    out = []
+    for n in range(1, max_n + 1):
+        I = np.eye(n, dtype=np.int8)
+        out.append(I)
+        out.append(np.concatenate([I, I], axis=1))
+        out.append(np.concatenate([I, I], axis=0))
+        out.append(np.triu(np.ones((n, n), dtype=np.int8)))
+        out.append(np.ones((n, n), dtype=np.int8))
+        out.append(np.fliplr(I))
+        if n >= 2:
+            for r in range(n):
+                A = I.copy()
+                A[r] = I[(r + 1) % n]                      # row r duplicates the next one -> rank n-1
+                out.append(A)
+                B = np.concatenate([I, (I[r] ^ I[(r + 1) % n])[None, :]], axis=0)   # a dependent extra row
+                out.append(B)
+                C = np.delete(I, r, axis=0)                # n-1 independent rows, wide
+                out.append(C)
+            # rows that agree on the first columns and differ only far to the right
+            for k in range(max(1, n - 3), n):
+                A = np.zeros((3, n), dtype=np.int8)
+                A[:, 0] = 1
+                A[1, k] = 1
+                A[2, n - 1] = 1
+                out.append(A)
+    for n in (9, 10, 12, 16, 20, 24):
+        for off in range(0, n - 3):
+            cols = [off, off + 1, off + 2, off + 3]
+            for mask in range(1, 1 << 6):
+                rows = []
+                pairs = [(0, 1), (0, 2), (0, 3), (1, 2), (1, 3), (2, 3)]
+                for b, (x, y) in enumerate(pairs):
+                    if (mask >> b) & 1:
+                        v = np.zeros(n, dtype=np.int8)
+                        v[cols[x]] = 1
+                        v[cols[y]] = 1
+                        rows.append(v)
+                out.append(np.array(rows, dtype=np.int8))
+    return out
+
+
+def _struct_work(payload):
+    fails = []
+    for A in payload:
+        for dt in (np.int8, np.int64):
+            msgs = judge_matrix(A.astype(dt), brute=False)
+            for msg in msgs[:1]:
+                fails.append((A.shape, A.tolist(), np.dtype(dt).name, msg))
+    return len(payload) * 2, fails
+
+
 def check(ctx):
     quick = ctx.tier == "quick"
     bound = 14 if quick else 18
@@ -213,6 +268,15 @@ def check(ctx):
             ctx.violation({"kind": "matrix", "m": m, "n": n, "rows": matrix_from_code(m, n, code).tolist(), "after_shapes": shapes_of(k)},
                           "matrix: %dx%d %s: %s" % (m, n, matrix_from_code(m, n, code).tolist(), msg),
                           key=None)
+    ctx.phase("larger shapes, structurally enumerated (identities, duplicated / dependent rows, staircases, embedded edge sets)")
+    mats = structured_matrices(24 if quick else 40)
+    for cnt, fails in core.pmap(_struct_work, core.chunk_list(mats, 32)):
+        ctx.count("evaluations", cnt)
+        ctx.count("structured_matrices", cnt)
+        ctx.count("distinct_nontrivial", cnt // 2)
+        for shape, rows, dt, msg in fails[:10]:
+            ctx.violation({"kind": "matrix", "m": shape[0], "n": shape[1], "rows": rows, "dtype": dt},
+                          "matrix: %dx%d (structured family, dtype %s): %s" % (shape[0], shape[1], dt, msg))
     ctx.phase("degenerate shapes")
     for m, n in [(0, 1), (0, 3), (1, 0), (3, 0), (0, 0)]:
         A = np.zeros((m, n), dtype=np.int8)
